@@ -823,6 +823,10 @@ func RunWorker(prop string, seed uint64, worker, cases int, out string) error {
 func runScenario(w *World, prop string, idx int) {
 	switch prop {
 	case "C03", "C18":
+		if prop == "C03" && idx%4 == 3 {
+			RunQuorumLossRace(w, idx)
+			return
+		}
 		RunMembership(w, idx)
 	case "C13":
 		RunSnapshots(w, idx)
@@ -831,6 +835,10 @@ func runScenario(w *World, prop string, idx int) {
 	default:
 		if (prop == "C02" || prop == "C04") && idx%10 == 9 {
 			RunConcurrent(w, idx)
+			return
+		}
+		if (prop == "C02" || prop == "C04" || prop == "C05") && idx%10 == 4 {
+			RunAddUnderLoad(w, idx)
 			return
 		}
 		RunIO(w, idx)
